@@ -2,21 +2,30 @@
 import collections
 
 import pyglove as pg
+from pgverif.gen import alias as A
+from pgverif.gen import desc as D
 from pgverif.gen import history as H
 from pgverif.gen import ops as O
 from pgverif.monitors import tree as TM
 
 TIERS = {
-    'quick': dict(shards=4, cases=220, steps=40),
+    'quick': dict(shards=8, cases=110, steps=40),
     'thorough': dict(shards=16, cases=1500, steps=80),
 }
 RULE = ('case = one history of mutating/copying API calls from the full '
-        'List/Dict/Object operation table applied at uniformly chosen nodes of '
-        'a random forest (1-3 roots, typed and untyped, operands fresh / aliased '
-        'node of the same or another tree / invalid); tree_ok is evaluated '
-        'after every step. Non-trivial = at least 3 steps returned normally and '
-        'changed the forest; distinct by (operation-name sequence, final shape).')
-REQUIRED_COUNTERS = ['tree_ok_evals', 'steps_ok', 'steps_rejected']
+        'List/Dict/Object operation table plus constructor calls (pg.Dict / '
+        'pg.List / pg.Object / pg.from_json in their calling forms, given nested '
+        'literals) applied at uniformly chosen nodes of a random forest (1-3 '
+        'roots, typed and untyped, schema-bound containers with required keys / '
+        'size bounds whose members are symbolic nodes; operands fresh / aliased '
+        'node of the same or another tree / invalid / the SAME object at several '
+        'places of one call); tree_ok is evaluated after every step and after '
+        'every constructor of a shared operand. Non-trivial = at least 3 steps '
+        'returned normally and changed the forest; distinct by (operation-name '
+        'sequence, final shape).')
+REQUIRED_COUNTERS = ['tree_ok_evals', 'steps_ok', 'steps_rejected',
+                     'steps_shared_operand', 'ctor_checks',
+                     'rejected_on_typed_parent_of_nodes']
 ASSUMPTIONS = [
     'only public API is observed (sym_parent, sym_path, sym_items, sym_get, sym_root)',
     'self-containing values (a root inserted below itself) are not generated',
@@ -38,38 +47,70 @@ def cases(ctx):
 heal = H.deep_copy_forest
 
 
+def typed_parent_of_nodes(forest, step):
+  """Is the target of the step a schema-bound Dict/List that currently holds
+  symbolic members (so that a rejected call must leave those intact)?"""
+  if step['op'] in A.CTOR_OPS:
+    return False
+  try:
+    node = D.resolve(forest, step['at'][0], step['at'][1])
+  except Exception:  # pylint: disable=broad-except
+    return False
+  if not isinstance(node, (pg.Dict, pg.List)) or node.value_spec is None:
+    return False
+  return any(isinstance(v, pg.Symbolic) for _, v in TM.children(node))
+
+
 def run_case(ctx, i):
   rng = ctx.rng
-  descs, forest = H.make_forest(rng)
+  descs, forest = A.make_forest(rng)
   seen = {}
   c = ctx.counters
   first = TM.tree_ok(forest, seen, c)
   c['tree_ok_evals'] += 1
   for clause, detail in first:
     ctx.violation(clause, 'construction', detail, {'forest': descs})
-  trace, ok_steps = [], 0
+  trace, ok_steps, after = [], 0, None
   n_steps = rng.randint(ctx.params['steps'] // 2, ctx.params['steps'])
   for _ in range(n_steps):
-    step = H.gen_step(rng, forest)
+    step = A.gen_step(rng, forest)
     if step is None:
       break
-    before = TM.shape(forest)
+    typed_parent = typed_parent_of_nodes(forest, step)
+    before = after if after is not None else TM.shape(forest)
     pre = H.deep_copy_forest(forest) if H.notify_suppressed(step) else None
     ctx.label = step['op']
-    status, result, problems = H.apply_step(forest, seen, step, c)
+    status, result, problems, built = A.apply_step(forest, seen, step, c)
     ctx.label = None
     c['op:' + step['op']] += 1
+    if step.get('shared'):
+      c['steps_shared_operand'] += 1
+      c['shared:' + step['op']] += 1
     if status == 'ok':
       c['steps_ok'] += 1
     else:
       c['steps_rejected'] += 1
       c['rejected:' + type(result).__name__] += 1
+      if typed_parent:
+        c['rejected_on_typed_parent_of_nodes'] += 1
+        c['rejected_on_typed_parent_of_nodes:' + step['op']] += 1
     c['tree_ok_evals'] += 1
-    trace.append(O.show_step(step) + (' -> ' + type(result).__name__
+    trace.append(A.show_step(step) + (' -> ' + type(result).__name__
                                       if status == 'raise' else ''))
-    if status == 'ok' and TM.shape(forest) != before:
+    after = TM.shape(forest)
+    if status == 'ok' and after != before:
       ok_steps += 1
-    if problems:
+    if built.problems:
+      # A constructor of an operand (or the constructor call itself) returned
+      # a broken value: what the operation did with it afterwards is not judged.
+      per = collections.OrderedDict()
+      for clause, mech, detail in built.problems:
+        per.setdefault((clause, mech), detail)
+      for (clause, mech), detail in per.items():
+        ctx.violation(clause, mech, f'after step {len(trace)}: {trace[-1]}\n{detail}',
+                      {'forest': descs, 'history': trace[-12:]})
+      problems = problems or [('ctor', '')]
+    elif problems:
       per = collections.OrderedDict()
       for clause, detail in problems:
         per.setdefault(clause, detail)
@@ -80,17 +121,19 @@ def run_case(ctx, i):
         seen2 = {}
         if not TM.tree_ok(pre, seen2):
           try:
-            _, _, p2 = H.apply_step(pre, seen2, H.without_notify_off(step))
+            _, _, p2, _ = A.apply_step(pre, seen2, H.without_notify_off(step))
             with_notify, decided = {cl for cl, _ in p2}, True
             c['notify_differential_runs'] += 1
           except Exception:  # pylint: disable=broad-except
             pass
       for clause, detail in per.items():
-        mech = H.mechanism(step, status,
+        mech = A.mechanism(step, status,
                            decided and clause not in with_notify)
         ctx.violation(clause, mech, f'after step {len(trace)}: {trace[-1]}\n{detail}',
                       {'forest': descs, 'history': trace[-12:]})
+    if problems:
       forest[:] = heal(forest)
+      after = None
       seen.clear()
       c['heals'] += 1
       if TM.tree_ok(forest, seen):
@@ -98,9 +141,10 @@ def run_case(ctx, i):
         break
     if H.total_size(forest) > 400:
       break
-  ctx.seen('final_shapes', TM.shape(forest))
+  final = TM.shape(forest)
+  ctx.seen('final_shapes', final)
   if ok_steps >= 3:
     ctx.mark_nontrivial((tuple(t.split('(')[0].split('.', 1)[-1] for t in trace),
-                         TM.shape(forest)))
+                         final))
   if i < 2:
     ctx.sample({'forest': [str(d)[:300] for d in descs], 'history': trace[:12]})
